@@ -11,6 +11,10 @@ DOCS = [
     # a diagnostic with labels in two documents: the call site (far into a long document) and the callee's declaration
     ("cross-file-caller", "(* " + "padding " * 40 + "*)\nPROGRAM pcall\nVAR latch1 : Latch; b : BOOL; END_VAR\nlatch1(SETT := b);\nEND_PROGRAM\n"),
     ("cross-file-callee", "FUNCTION_BLOCK Latch\nVAR_INPUT SET1 : BOOL; END_VAR\nEND_FUNCTION_BLOCK\n"),
+    # characters outside ASCII in front of the diagnosed place, on the same line (columns are counted in characters)
+    ("semantic-error-after-umlaut", "PROGRAM pu\nVAR x : INT; END_VAR\n(* Zähler für Überlauf *) y := 1;\nEND_PROGRAM\n"),
+    ("syntax-error-after-cjk", "PROGRAM pc\nVAR x : INT; s : STRING; END_VAR\ns := '日本語'; x := ;\nEND_PROGRAM\n"),
+    ("lexical-error-after-accent", "PROGRAM pa\nVAR x : INT; END_VAR\n(* é *) x := 1 ? 2;\nEND_PROGRAM\n"),
 ]
 
 
